@@ -76,6 +76,22 @@ def env_prefix(tier, seed):
     return acc.out()
 
 
+def xy_gap_case(seed, transformer, window):
+    """the transformer is fitted up to a date that is *not* a row of the feature table (a gap): rows after it must not matter"""
+    idx = pd.bdate_range("2021-01-04", periods=40)
+    r = np.random.default_rng(11 + seed)
+    Y = pd.DataFrame({"A": 100 * np.exp(np.cumsum(r.normal(0, .01, 40)))}, index=idx)
+    X = pd.DataFrame({"f": r.normal(0, 1, 40), "g": r.normal(2, 3, 40)}, index=idx).drop(idx[[12, 13]])
+    tend = idx[12]                        # present in Y, absent from X
+    cut = 12
+    X2, Y2 = X.copy(), Y.copy()
+    X2.loc[X2.index > idx[cut]] *= 3
+    Y2.iloc[cut + 1:] *= 1.3
+    a = [o for o in runxy(X, Y, tend, transformer, window) if o[0] <= idx[cut]]
+    b = [o for o in runxy(X2, Y2, tend, transformer, window) if o[0] <= idx[cut]]
+    return a, b
+
+
 def runxy(X, Y, tend, transformer, window, folds=None):
     env = TradingEnvXY(X, Y, transformer=transformer, transformer_end=tend, window=window, steps_delay=1, spread=0.001)
     out = []
@@ -117,10 +133,22 @@ def xy_prefix(tier, seed):
                     acc.fail("C02::shell::tabular_outputs_up_to_t_independent_of_later_rows", "c02_lookahead",
                              {"api": "xy", "seed": seed, "transformer": transformer, "window": window, "cut": cut},
                              {"first_difference_at_output": i})
+    for transformer in ("z-score", "yeo-johnson"):
+        for window in (1, 3):
+            a, b = xy_gap_case(seed, transformer, window)
+            acc.case(("gap", transformer, window))
+            acc.validated += 2
+            if a != b:
+                acc.fail("C02::shell::tabular_outputs_up_to_t_independent_of_later_rows", "c02_lookahead",
+                         {"api": "xy_gap", "seed": seed, "transformer": transformer, "window": window, "cut": 12},
+                         {"prefix_lengths": [len(a), len(b)]})
     return acc.out()
 
 
 def rerun(inp):
+    if inp["api"] == "xy_gap":
+        a, b = xy_gap_case(inp["seed"], inp["transformer"], inp["window"])
+        return {"reproduced": a != b}
     if inp["api"] == "env":
         res = env_prefix("thorough", inp["seed"])
         hit = [f for f in res["failures"] if all(f["input"].get(k) == inp.get(k) for k in ("latency", "delay", "setting", "cut"))]
